@@ -118,7 +118,9 @@ func extractHashedPathParams(pathParams map[string]string,
 	for _, key := range payloadPaths {
 		if key.PayloadType == sharedConfig.PayloadRequestPathParams.String() {
 			if pathParams[key.Path] != "" {
-				pathParamValue := fmt.Sprintf("%s:%s", key.Path, pathParams[key.Path])
+				// %q keeps the joined string unambiguous: a value must not be
+				// able to spell out the next "path:value" pair
+				pathParamValue := fmt.Sprintf("%s:%q", key.Path, pathParams[key.Path])
 				values = append(values, pathParamValue)
 			}
 		}
